@@ -19,7 +19,8 @@ TECHNIQUE = "fault injection on a deterministic actor/asyncio simulator: generat
 RULE = (
     "Generated: C01-style races x one fault: request failure (HTTP 5xx / success:false) under on-error=abort at a drawn request; fatal "
     "ConnectionError under on-error=continue; parameter source raising at its n-th params(); runner raising KeyError / RuntimeError / "
-    "RallyAssertionError; the driver's metrics store failing on its n-th record, once or persistently (flush/close/externalise too); a "
+    "RallyAssertionError; the driver's metrics store - or race control's, while it adds the metrics handed over after a step - failing on "
+    "its n-th record, once or persistently (flush/close/externalise too); a "
     "track preparation task raising; a worker process killed at a drawn virtual time; user cancellation (KeyboardInterrupt in race "
     "control's ask) at a drawn virtual time; or no fault. Non-trivial = the fault actually fired and the race had >= 2 workers. "
     "Distinct = distinct canonical JSON."
@@ -66,7 +67,10 @@ def _case(draw):
         fault = {"kind": "param-source", "task": leaf["name"], "client": client, "ordinal": ordinal}
     elif kind in ("store-once", "store-persistent"):
         fault = {"kind": "store", "n": draw(st.sampled_from([1, 2, 3, 7, 20, 60])), "persistent": kind == "store-persistent"}
-        if draw(st.booleans()):
+        if draw(st.integers(0, 2)) == 0:
+            # the store on race control's side fails while the metrics handed over after a step (or at the end) are added
+            fault["where"] = "race-control"
+        elif draw(st.booleans()):
             # a step longer than the 30 s post-processing interval: the store fails in a periodic tick while the race goes on
             leaf["mode"] = "time"
             leaf.pop("iterations", None)
